@@ -12,12 +12,17 @@ const char *harness_name = "c05_history";
 static struct rt_inst inst;
 static RegisterAtom *bufs[40];
 
+/* a value every register may hold: its default - except where the default itself is outside the constraint, which a
+ * table may legitimately say about registers whose defaults are never loaded (skip-defaults areas, device areas
+ * without write access); such a default is a value like any other to the checked operations, and is refused */
+static RegisterValueU valid0[RT_MAXREGS];
+
 static void
 load_defaults_out_of_band(void)
 {
     for (int i = 0; i < inst.d.nregs; i++) {
         const struct rt_reg *r = &inst.d.reg[i];
-        rt_encode(r->type, inst.d.bigendian, rt_bits(r->type, r->def), rt_model_word(&inst, r->addr));
+        rt_encode(r->type, inst.d.bigendian, rt_bits(r->type, valid0[i]), rt_model_word(&inst, r->addr));
     }
     for (int a = 0; a < inst.d.nareas; a++)
         memcpy(inst.store[a], inst.model[a], 2 * (size_t)inst.d.area[a].size);
@@ -371,9 +376,9 @@ step_sanitise_unjudged(vh_rng *rg, const char *ctx0)
         uint64_t bits;
         int valid = rt_model_reg(&inst, i, &bits);
         if (r->ck >= REGV_TYPE_MIN && (!valid || !rt_satisfies(r, rt_from_bits(r->type, bits), 0)))
-            rt_encode(r->type, d->bigendian, rt_bits(r->type, r->def), rt_model_word(&inst, r->addr));
+            rt_encode(r->type, d->bigendian, rt_bits(r->type, valid0[i]), rt_model_word(&inst, r->addr));
         else if (!valid)
-            rt_encode(r->type, d->bigendian, rt_bits(r->type, r->def), rt_model_word(&inst, r->addr));
+            rt_encode(r->type, d->bigendian, rt_bits(r->type, valid0[i]), rt_model_word(&inst, r->addr));
     }
     for (int ar = 0; ar < d->nareas; ar++)
         memcpy(inst.store[ar], inst.model[ar], 2 * (size_t)d->area[ar].size);
@@ -419,6 +424,33 @@ setup_table(vh_rng *rg, int allow_fail, int all_writable)
     if (all_writable)
         for (int a = 0; a < d.nareas; a++)
             d.area[a].has_write = 1;
+    for (int i = 0; i < d.nregs; i++)
+        valid0[i] = d.reg[i].def;
+    if (allow_fail && !all_writable) {
+        /* tables on which sanitise is not judged anyway: every second constrained register whose default is never
+         * loaded names a default its own constraint rejects */
+        for (int i = 0; i < d.nregs; i++) {
+            struct rt_reg *r = &d.reg[i];
+            int ai = rt_area_of(&d, r->addr);
+            if (ai < 0 || rt_area_loads_defaults(&d.area[ai]) || ((unsigned)i + (unsigned)vh_unit_salt) % 2u)
+                continue;
+            RegisterValueU bad = r->def;
+            if (r->ck == REGV_TYPE_MIN || (r->ck == REGV_TYPE_RANGE && (i & 2)))
+                bad = rt_neighbour(r->type, r->lo, -1);
+            else if (r->ck == REGV_TYPE_MAX || r->ck == REGV_TYPE_RANGE)
+                bad = rt_neighbour(r->type, r->hi, +1);
+            else if (r->ck == REGV_TYPE_CALLBACK)
+                bad = r->cbkind == RT_CB_EVEN ? rt_from_bits(r->type, rt_bits(r->type, r->def) | 1u)
+                                              : (r->type == REG_TYPE_FLOAT32 ? (RegisterValueU){ .f32 = 100.5f }
+                                                                             : (RegisterValueU){ .f64 = -1e3 });
+            else
+                continue;
+            if (!rt_bits_valid(r->type, rt_bits(r->type, bad)) || rt_satisfies(r, bad, 0))
+                continue;
+            r->def = bad;
+            VH_COUNT("register whose never-loaded default is outside its own constraint");
+        }
+    }
     rt_build(&inst, &d);
     for (uint32_t n = 0; n < 40; n++)
         bufs[n] = vh_arena(2 * (size_t)n);
@@ -601,6 +633,7 @@ harness_run(void)
                                  "step: bit operation with a mismatched operand refused",
                                  "step: bit operation refused by the constraint", "step: block write accepted",
                                  "step: block write refused", "step: sanitise",
+                                 "register whose never-loaded default is outside its own constraint",
                                  "step: sanitise outside its promise, stopped with an error",
                                  "second table used between the steps",
                                  "sanitise: register with undecodable content reset",
